@@ -473,6 +473,18 @@ def replay(payload):
                     g.start()
                     if g.clck_src != cs:
                         bad.append(("restart", {"clck_start": cs, "counter before stop": prior, "counter after restart": g.clck_src}))
+                    # the restarted generator must tick again: run the worker body of the restarted object synchronously for two ticks
+                    ticks = []
+
+                    def handler(fn, g=g, ticks=ticks):
+                        ticks.append(fn)
+                        if len(ticks) >= 2:
+                            g._breaker.set()
+                    g.clck_handler = handler
+                    g._worker()
+                    if ticks != [cs, (cs + 1) % H]:
+                        bad.append(("restarted generator does not tick", {"clck_start": cs, "frames seen by the handler after stop()/start()": ticks}))
+                    g._breaker.clear()
         except Exception as e:
             bad.append(("raises", type(e).__name__, str(e)))
         finally:
